@@ -75,7 +75,22 @@ def corrupt(text, t):
             line = t.choice(["register z[%s]" % a_, "register %s[2]" % a_, "map z %s" % a_, "map z %s[%s]" % (a_, b_), "map z %s[0:%s]" % (a_, b_), "let z %s" % a_, "let %s 1" % a_, "macro %s %s { }" % (a_, b_), "loop %s { }" % a_, "%s %s" % (a_, b_), "%s[%s]" % (a_, b_)])
             bounds = [0] + [i + 1 for i, ch in enumerate(text) if ch == "\n"]
             at = t.choice(bounds)
+            if "usepulses" not in text and t.chance(0.25):
+                # reserved words of statements the grammar knows but the library does not
+                # implement: the error must point at that line
+                line = t.choice(["import %s as %s" % (a_, b_), "import foo as bar", "import %s" % a_, "as %s" % a_, "from %s import %s" % (a_, b_), "from %s usepulses %s" % (a_, b_)])
+                return text[:at] + line + "\n" + text[at:], {"kind": "decl-reserved", "at": at, "line": line}
             return text[:at] + line + "\n" + text[at:], {"kind": "decl", "at": at, "line": line}
+    if "usepulses" in text and t.chance(0.06):
+        # a pulse import that names, relatively, something this process has already loaded
+        # from elsewhere (the import directory has no such file: the call must fail and leave
+        # the loaded module alone)
+        import re as _re2
+
+        m_ = _re2.search(r"from\s+(\.?[A-Za-z_][A-Za-z0-9_.]*)\s+usepulses", text)
+        if m_:
+            nm = t.choice(["json", "json", "colorsys", "json.decoder"])
+            return text[: m_.start(1)] + "." + nm + text[m_.end(1) :], {"kind": "import-loaded", "at": m_.start(1), "name": nm}
     if "usepulses" in text and t.chance(0.12):
         # relative / absolute confusion in a pulse import
         i = text.find("from .")
@@ -90,7 +105,7 @@ def corrupt(text, t):
         nums = [(m.start(), m.end()) for m in _re.finditer(r"(?<![A-Za-z_0-9.])[-+]?[0-9]+(?:\.[0-9]+)?(?:[eE][-+]?[0-9]+)?", text)]
         if nums:
             a, b = nums[t.randrange(len(nums))]
-            lit = t.choice(["-1", "-2", "-3", "1.0e999", "-2.5E+400", "1.0e-999", "99999999999999999999999999", "-99999999999999999999", "0000", "+5", "00.5", ".5", "5.", "1e5", "0x10", "1_000", "1.5.2", "--1", "1e", "-0", "-0.0", "9" * 400, "9" * 5000])
+            lit = t.choice(["-1", "-2", "-3", "1.0e999", "1.0e999", "-1.0e999", "-2.5E+400", "1.0e-999", "99999999999999999999999999", "-99999999999999999999", "0000", "+5", "00.5", ".5", "5.", "1e5", "0x10", "1_000", "1.5.2", "--1", "1e", "-0", "-0.0", "9" * 400, "9" * 5000, "64", "1000", "40"])
             return text[:a] + lit + text[b:], {"kind": "number", "at": a, "lit": lit[:12]}
         kind = "truncate"
     if kind == "truncate":
@@ -1096,6 +1111,12 @@ def plan_c16(run_seed):
             e["prog"] = dict(e["prog"])
             e["prog"]["reg"] = None  # programs without a register
             e["exec"] = False
+        elif t.chance(0.06) and e["prog"].get("reg") and not e.get("anon"):
+            # a register no emulator can hold (the program itself is fine)
+            e["prog"] = dict(e["prog"])
+            e["prog"]["reg"] = [e["prog"]["reg"][0], t.choice([40, 64, 64, 200, 1000])]
+            e["exec"] = False
+            e["huge_register"] = True
         texts.append(e)
     if t.chance(0.05):
         kind = t.choice(DEEP_KINDS)
@@ -1151,6 +1172,8 @@ def plan_c16(run_seed):
         op = {"op": "parse", "text": ti, "kw": kw if via in ("string", "file", "run") else {}, "via": via}
         if via in ("run", "run_string", "run_file"):
             op["variant"] = t.randrange(4)  # the gate definitions in force for this call
+            if t.chance(0.3):
+                op["sampler"] = "numpy"
         if via == "run" and t.chance(p_shared_be):
             op["shared_be"] = True
         if t.chance(p_interrupt):
@@ -1169,6 +1192,11 @@ def plan_c16(run_seed):
 
 
 def plan_c16_sweep(run_seed, st, t):
+    if t.chance(0.3):
+        # the other exhaustive sweep: one call statement, every combination of argument kinds
+        prog, ov, cfg = make_program(st, "sweep", "exec" if t.chance(0.6) else "general", "C16", {"budget": t.randint(3, 9), "layout_noise": 0.0, "p_macros": 1.0, "p_call": 0.5, "anon": False, "p_regparam": 0.6})
+        e = {"prog": prog, "noise": 0.0, "anon": False, "exec": cfg["profile"] == "exec", "ov": ov}
+        return {"engine": "E1", "prop": "C16", "run_seed": run_seed, "texts": [e], "ops": [], "sweep": {"kind": "args", "pick": t.randrange(1 << 30), "flips": 0, "flip_seed": 0, "flags": True}, "tapes": None}
     prog, ov, cfg = make_program(st, "sweep", "general" if t.chance(0.6) else "exec", "C16", {"budget": t.randint(3, 9), "layout_noise": t.choice([0.0, 0.5])})
     e = {"prog": prog, "noise": cfg["layout_noise"], "anon": cfg["anon"], "exec": cfg["profile"] == "exec", "ov": ov}
     return {"engine": "E1", "prop": "C16", "run_seed": run_seed, "texts": [e], "ops": [], "sweep": {"flips": 2, "flip_seed": t.randrange(1 << 30), "flags": t.chance(0.5)}, "tapes": None}
@@ -1197,8 +1225,7 @@ def check_type(S, j, op, o, text, allowed_extra=()):
     if op.get("via") in ("file", "run_file", "header_file"):
         # Python's text layer hands the library universal newlines
         text = text.replace("\r\n", "\n").replace("\r", "\n")
-    if big_literal(text) and (k in ("nonterm", "exc:MemoryError") or (k in ("exc:OverflowError", "exc:ValueError") and o.get("where") == "_make_subcircuit@unitary.py")):
-        # also: the state vector of an absurdly large register cannot be allocated
+    if big_literal(text) and k in ("nonterm", "exc:MemoryError"):
         S.probe("budget_verdict_waived_big_literal")
         return
     if k == "nonterm":
@@ -1223,7 +1250,7 @@ def check_type(S, j, op, o, text, allowed_extra=()):
         # reported at its opener, which may precede the corruption: such texts are skipped)
         fd = op.get("fault") or {}
         at = fd.get("at", fd.get("a"))
-        if isinstance(at, int) and isinstance(line, int) and "/*" not in text and "import" not in text and op.get("via") not in ("file", "run_file", "header_file"):
+        if isinstance(at, int) and isinstance(line, int) and "/*" not in text and ("import" not in text or fd.get("kind") == "decl-reserved") and op.get("via") not in ("file", "run_file", "header_file"):
             # exact position where it is known: a character no token starts with is reported
             # where it stands; a closing bracket as the very first character likewise
             exact = None
@@ -1271,7 +1298,13 @@ def c16_callable(S, op, j):
 
         def job():
             c = base()
-            s = seams.SimSampler(Tape(seed), "faithful")
+            s = seams.SimSampler(Tape(seed), op.get("sampler", "faithful"))
+            if op.get("sampler") == "numpy":
+                # the library's own numpy.random.choice (it has opinions about what a
+                # probability vector is), seeded
+                import numpy
+
+                numpy.random.seed(seed % (2**32))
             old = seams.install_sampler(s)
             try:
                 if op.get("shared_be"):
@@ -1287,7 +1320,11 @@ def c16_callable(S, op, j):
         seed = H(S.plan["run_seed"], "sampler", j)
 
         def job2():
-            s = seams.SimSampler(Tape(seed), "faithful")
+            s = seams.SimSampler(Tape(seed), op.get("sampler", "faithful"))
+            if op.get("sampler") == "numpy":
+                import numpy
+
+                numpy.random.seed(seed % (2**32))
             old = seams.install_sampler(s)
             try:
                 return base()
@@ -1371,6 +1408,8 @@ def materialise_c16(plan):
                 ne["pulses"] = src["pulses"]
             texts.append(ne)
             ops.append({"op": "parse", "text": len(texts) - 1, "kw": op.get("kw", {}), "via": op.get("via", "string"), "fault": fd})
+            if op.get("via") in ("run", "run_file") and op["seed"] % 3 == 0:
+                ops[-1]["sampler"] = "numpy"
             if op.get("shared_be") and op.get("via") == "run":
                 ops[-1]["shared_be"] = True
         else:
@@ -1595,6 +1634,8 @@ def sweep_c16(S, plan2, hist):
     from jaqalpaq.parser import parse_jaqal_string
 
     sw = plan2["sweep"]
+    if sw.get("kind") == "args":
+        return sweep_args_c16(S, plan2, hist)
     text = S.text(0)
     kw0 = S.parse_kwargs(0, {})
     kws = [kw0]
@@ -1626,6 +1667,137 @@ def sweep_c16(S, plan2, hist):
     S.probe("sweep_texts")
     S.probe("sweep_parses", n)
     hist.append(("sweep", len(text)))
+
+
+def arg_palette(prog):
+    """Things of every kind the text declares, as call arguments."""
+    pal = [["num", 0], ["num", 1], ["num", 2], ["num", -1], ["num", 99], ["num", 0.5], ["num", 1.0], ["raw", "1.0e999"]]
+    reg = prog.get("reg")
+    if reg:
+        pal += [["id", reg[0]], ["item", reg[0], 0], ["item", reg[0], 99]]
+    ints = [x[0] for x in prog["lets"] if isinstance(x[1], int)]
+    flts = [x[0] for x in prog["lets"] if not isinstance(x[1], int)]
+    for nm in ints[:1] + flts[:1]:
+        pal.append(["id", nm])
+        if reg:
+            pal.append(["item", reg[0], nm])
+    seen = set()
+    for m in prog["maps"]:
+        if m["kind"] in seen:
+            continue
+        seen.add(m["kind"])
+        pal.append(["id", m["name"]])
+        pal.append(["item", m["name"], 0])
+    if prog["macros"]:
+        pal.append(["id", prog["macros"][0]["name"]])
+    pal.append(["id", "undeclared_name"])
+    return pal
+
+
+def sweep_args_c16(S, plan2, hist):
+    """Exhaustive for one call statement: every argument position gets a thing of every
+    kind the text declares (register, alias, single qubit, let, macro, numbers in and out of
+    range); for calls with two or more arguments every pair of positions gets every pair.
+    Each text is parsed plainly and with all expansions, and executed when it parses."""
+    import itertools
+    from jaqalpaq.parser import parse_jaqal_string
+    from jaqalpaq.emulator import run_jaqal_circuit
+
+    sw = plan2["sweep"]
+    e = plan2["texts"][0]
+    prog = copy.deepcopy(e["prog"])  # (the plan itself stays as planned)
+    t = Tape(sw["pick"])
+    mnames = {m["name"] for m in prog["macros"]}
+    calls = [x for x in progast.all_statements(prog) if x["k"] == "gate" and x["args"]]
+    mcalls = [x for x in calls if x["name"] in mnames]
+    multi = [x for x in mcalls if len(x["args"]) >= 2]
+    big = [m for m in prog["macros"] if len(m["params"]) >= 2]
+    if big and not multi and prog.get("reg"):
+        # no macro of two or more parameters is called: write such a call (its original
+        # arguments do not matter, every position is about to be swept)
+        def indexes_param_by_param(m):
+            ps = set(m["params"])
+            return any(x["k"] == "gate" and any(a[0] == "item" and a[1] in ps and a[2] in ps for a in x["args"]) for x in progast.all_statements({"macros": [], "body": [m["body"]], "lets": [], "maps": [], "reg": prog["reg"]}))
+
+        pref = [m for m in big if indexes_param_by_param(m)]
+        m_ = t.choice(pref or big)
+        stmt = {"k": "gate", "name": m_["name"], "args": [["item", prog["reg"][0], 0] for _ in m_["params"]]}
+        prog["body"].append({"k": "sub", "count": None, "body": [stmt]} if e.get("exec") else stmt)
+        calls.append(stmt)
+        mcalls.append(stmt)
+        multi = [stmt]
+        S.probe("sweep_args_call_written")
+    if not calls:
+        S.probe("sweep_args_no_call")
+        hist.append(("sweep_args", 0))
+        return
+    target = t.choice(multi) if multi and t.chance(0.7) else t.choice(mcalls or calls)
+    pal = arg_palette(prog)
+    npos = len(target["args"])
+    combos = [((i,), (a,)) for i in range(npos) for a in pal]
+    pairs = list(itertools.combinations(range(npos), 2))
+    # pairs: one representative per kind of thing
+    rep, kinds = [], set()
+    for a in pal:
+        kd = (a[0], type(a[1]).__name__, a[1] if a[0] == "num" and a[1] in (1, 0.5, -1) else None, len(a))
+        if a[0] == "id":
+            kd = ("id", a[1])
+        if a[0] == "raw" or (a[0] == "num" and a[1] in (0, 2, 99, 1.0)) or (a[0] == "item" and a[2] == 99) or kd in kinds:
+            continue
+        kinds.add(kd)
+        rep.append(a)
+    if len(pairs) > 2:
+        pairs = t.sample(pairs, 2)
+    for i, k in pairs:
+        combos += [((i, k), (a, b)) for a in rep for b in rep]
+    orig = [list(a) for a in target["args"]]
+    kw0 = S.parse_kwargs(0, {})
+    k2 = dict(kw0)
+    k2.update(expand_macro=True, expand_let=True, expand_let_map=True)
+    n = 0
+    for pos, vals in combos:
+        target["args"][:] = [list(a) for a in orig]
+        for i, a in zip(pos, vals):
+            target["args"][i] = list(a)
+        txt = progast.render(prog, progast.Layout(None, 0.0))
+        for kw in (kw0, k2):
+            holder = {}
+
+            def call(kw=kw, txt=txt, holder=holder):
+                holder["c"] = parse_jaqal_string(txt, **kw)
+                return holder["c"]
+
+            out = seams.outcome_of(call, S.clock, budget_parse(txt))
+            n += 1
+            S.fault("sweep:args")
+            nv = len(S.viol)
+            check_type(S, 0, {"text": 0}, out, txt)
+            if out["kind"] == "ok" and kw is kw0 and e.get("exec") and not big_literal(txt):
+                smp = seams.SimSampler(Tape(H(S.plan["run_seed"], "sampler", n)), "numpy" if n % 4 == 0 else "faithful")
+                if n % 4 == 0:
+                    import numpy
+
+                    numpy.random.seed(H(S.plan["run_seed"], "numpy", n) % (2**32))
+                old_smp = seams.install_sampler(smp)
+                try:
+                    out2 = seams.outcome_of(lambda: run_jaqal_circuit(holder["c"]), S.clock, budget_parse(txt) + 5_000_000)
+                finally:
+                    seams.install_sampler(old_smp)
+                check_type(S, 0, {"text": 0, "via": "run"}, out2, txt)
+                S.log.append(("args-run", pos, S.outcome_digest(out2)))
+                n += 1
+            if len(S.viol) > nv:
+                S.viol[-1]["sweep_text"] = txt
+                S.viol[-1]["sweep_kw"] = {k: v for k, v in kw.items() if k.startswith("expand")}
+            S.log.append(("args", pos, S.outcome_digest(out)))
+        if len(S.viol) > 6:
+            break
+    target["args"][:] = orig
+    S.probe("sweep_args_texts")
+    S.probe("sweep_args_calls", n)
+    if len(pairs):
+        S.probe("sweep_args_pairs")
+    hist.append(("sweep_args", len(combos)))
 
 
 def twin_many(plans):
@@ -1675,6 +1847,10 @@ def plan_c10(run_seed):
     t = st.get("ops")
     profile = "general" if t.chance(0.65) else "exec"
     force = {"p_lets": 0.9, "p_let_use": 0.6, "p_macros": 0.9, "p_override": 0.7, "p_call": 0.3} if t.chance(0.35) else None
+    if force is None and t.chance(0.2):
+        # rich in names that can capture one another: a register sized by a let, aliases of
+        # aliases, macro parameters named like registers, aliases and lets
+        force = {"p_lets": 0.9, "p_letsize": 0.7, "p_maps": 0.8, "p_alias_use": 0.8, "p_macros": 0.9, "p_shadow": 0.7, "p_call": 0.3, "p_single": 0.5}
     prog, ov, cfg = make_program(st, "t0", profile, "C10", force)
     # any override dictionary over the declared lets (same type), not only the validated one
     O = dict(ov or {})
@@ -1682,6 +1858,8 @@ def plan_c10(run_seed):
         for name, v in prog["lets"]:
             if t.chance(0.4):
                 O[name] = t.choice(gen.INT_VALUES) if isinstance(v, int) else t.choice(gen.FLOAT_VALUES)
+                if isinstance(v, int) and t.chance(0.3):
+                    O[name] = float(O[name])  # an integer given as a float (2.0): "any dictionary"
     seqs = []
     for _ in range(t.randint(2, 4)):
         if seqs and t.chance(0.6):
@@ -1723,6 +1901,8 @@ def plan_c10(run_seed):
         for name, v in prog["lets"]:
             if t.chance(0.6):
                 O2[name] = t.choice(gen.INT_VALUES) if (isinstance(v, int) and not t.chance(0.2)) else t.choice(gen.FLOAT_VALUES)
+                if isinstance(v, int) and isinstance(O2[name], int) and t.chance(0.25):
+                    O2[name] = float(O2[name])
         if O2 == O:
             O2 = {}
         seq_ov = [1 if t.chance(0.4) else 0 for _ in seqs]
@@ -1806,12 +1986,17 @@ def exec_c10(plan):
             if orp["kind"] != "ok":
                 S.viol.add("C10", "result_is_legal_circuit", "reparse:" + orp["kind"], orp.get("where", ""), "after %s the generated text is rejected: %s\n%s" % (label, orp.get("exc"), txt[:300]), op=j)
                 return
+            # the dictionary is an argument of fill_in_let, not a property of the circuit:
+            # before any let substitution a circuit means what its declared values say
+            # (fill_in_map alone resolves indices with the declared values - evaluating its
+            # result under a dictionary no pass was given is F15's question, not legality's)
+            env_ = cur[0] if "L" in label else {}
             try:
-                m1 = extract.meaning(c, cur[0], with_counts=True)
-                m2 = extract.meaning(orp["value"], cur[0], with_counts=True)
+                m1 = extract.meaning(c, env_, with_counts=True)
+                m2 = extract.meaning(orp["value"], env_, with_counts=True)
             except extract.Unresolvable as ex_:
                 S.probe("legality_unresolvable")
-                if start_resolvable(cur[0]):
+                if start_resolvable(env_):
                     # the circuit the passes started from has a meaning under this dictionary;
                     # a pass that succeeded cannot have produced one that has none (an
                     # unbound parameter at top level, say)
@@ -2033,7 +2218,7 @@ def candidates(plan):
 RULE = {
     "C10": "One evaluation = one seeded history of passes: a generated program is parsed once and 2-6 sequences (orders and repetitions, length 1-6) over {expand_macros(+-preserve), fill_in_let(O), expand_subcircuits, fill_in_map} are applied to the shared start circuit; sequences with the same set of pass kinds are compared through the meaning extractor, every pass is applied twice (idempotence in three views), every intermediate circuit is generated and re-parsed, parser flags are compared with explicit passes. Distinct = distinct history digest (sequence set + outcome); non-trivial = at least one sequence of length >= 2 completed.",
     "C11": "(The last run of every chunk of 12 is executed once more alone in a new process: its operation log must not depend on the runs before it; run operations may share one backend object.) One evaluation = one seeded session history of 4-20 library calls (parse via string/file/S-expression, 8 passes, 7 analyses incl. emulation and output parsing, drops) on a pool of up to 6 shared objects, with cancellation at line event k on a fraction of the operations and nested calls fired from inside ideal_unitary; after every operation every live object and the gate table are re-snapshotted (identity-aware) and the outcome is compared with the same operation on a freshly built copy. Distinct = distinct history digest; non-trivial = the history contains a fault or an operation on a derived object.",
-    "C16": "One evaluation = one seeded session history of 4-16 parse/run calls over up to 3 generated texts and their corrupted variants (truncate, flip, dup, drop, token delete/duplicate/swap, torn tail), pulse-module faults (missing, no attribute, raising top level, package), cancellation at line event k, nested parses at the two re-entrancy points, and the event 'someone imported importlib.util'; a second process lifetime executes the same calls in reversed order and every call's outcome digest must agree. About one run in twelve is an exhaustive sweep of one text: truncation at every offset and two flips per offset; one run in twenty carries a text whose only unusual feature is depth (40-520 nested loops / alternating blocks / macros calling macros, alias chains of 24-45). Run operations may share one backend object per process lifetime; the last run of every chunk is executed once more alone in a new process and its operation log must agree. Distinct = distinct history digest; non-trivial = at least one fault fired or a call failed.",
+    "C16": "One evaluation = one seeded session history of 4-16 parse/run calls over up to 3 generated texts and their corrupted variants (truncate, flip, dup, drop, token delete/duplicate/swap, torn tail), pulse-module faults (missing, no attribute, raising top level, package), cancellation at line event k, nested parses at the two re-entrancy points, and the event 'someone imported importlib.util'; a second process lifetime executes the same calls in reversed order and every call's outcome digest must agree. About one run in twelve is an exhaustive sweep of one text: truncation at every offset and two flips per offset, or (three sweeps in ten) one call statement with every argument position filled by a thing of every kind the text declares and every pair of positions by every pair of kinds, parsed plainly, with all expansions, and executed; a third of the executing calls use numpy's own seeded sampler instead of the simulator's; one run in twenty carries a text whose only unusual feature is depth (40-520 nested loops / alternating blocks / macros calling macros, alias chains of 24-45). Run operations may share one backend object per process lifetime; the last run of every chunk is executed once more alone in a new process and its operation log must agree. Distinct = distinct history digest; non-trivial = at least one fault fired or a call failed.",
 }
 ASSUMPTIONS = [
     "the snapshot R4, the meaning extractor X and the generator/resolver R1 are trusted",
